@@ -532,6 +532,14 @@ class XPathToken(Token[ta.XPathTokenType]):
         if self.parser.compatibility_mode:
             left_values = [x for x in self._items[0].atomization(context)]
             right_values = [x for x in self._items[1].atomization(context)]
+            relational = self.symbol in ('<', '<=', '>', '>=')
+            if relational and self.parser.version == '1.0':
+                # XPath 1.0: both objects are converted to numbers, as fn:number() does
+                # (a boolean is a number, a value that is not a number is NaN)
+                yield from product(map(self.number_value, left_values),
+                                   map(self.number_value, right_values))
+                return
+
             # Boolean comparison if one of the results is a single boolean value (1.)
             try:
                 if isinstance(left_values[0], bool):
@@ -546,11 +554,19 @@ class XPathToken(Token[ta.XPathTokenType]):
                 return
 
             # Converts to float for lesser-greater operators (3.)
-            if self.symbol in ('<', '<=', '>', '>='):
-                yield from product(map(float, left_values), map(float, right_values))
+            if relational:
+                yield from product(map(self.number_value, left_values),
+                                   map(self.number_value, right_values))
                 return
             elif self.parser.version == '1.0':
-                yield from product(left_values, right_values)
+                # XPath 1.0: if at least one of the two objects is a number they are
+                # compared as numbers, otherwise as strings.
+                for value1, value2 in product(left_values, right_values):
+                    if isinstance(value1, (int, float, decimal.Decimal)) or \
+                            isinstance(value2, (int, float, decimal.Decimal)):
+                        yield self.number_value(value1), self.number_value(value2)
+                    else:
+                        yield value1, value2
                 return
         else:
             left_values = self._items[0].atomization(context)
